@@ -1,4 +1,5 @@
 """C15 - serialized bytecode (structural part)."""
+import re
 from .. import ast as A
 from .. import opcodes as O
 from .. import terms as T
@@ -48,7 +49,15 @@ def r1_opcode_map(rule, root=None):
 
 
 def new_fn(root=None):
-    return A.find_fn(BC, "new", self_ty="Bytecode", root=root)
+    """Bytecode::new with its small local helpers (other than the register-byte writer) read in place"""
+    fn0 = A.find_fn(BC, "new", self_ty="Bytecode", root=root)
+    try:
+        keep = (store_closure(fn0)[0],)
+    except A.AnchorLost:
+        keep = ()
+    fn = dict(fn0)
+    fn["body"] = A.inline_helpers(fn0, keep=keep)
+    return fn
 
 
 def store_closure(fn):
@@ -67,7 +76,11 @@ def store_closure(fn):
 def _arm_facts(arm, names, store="store_reg"):
     """store_reg(i, x) calls, word[j] = u8::MAX marks, imm = Some(..), mem_count updates"""
     facts = {"stores": [], "marks": [], "imm": [], "mem": [], "other": []}
+    stmts = []
     for s in A.stmts_of(arm["body"]):
+        pre, s2 = A.hoist_inlined(s)
+        stmts += pre + [s2]
+    for s in stmts:
         e = A.strip(A.stmt_expr(s) or {})
         if e.get("k") == "Try":
             e = A.strip(e["e"])
@@ -79,6 +92,12 @@ def _arm_facts(arm, names, store="store_reg"):
             if l.get("k") == "Index" and A.ident(A.strip(l["e"])) == "word":
                 facts["marks"].append((A.lit_value(l["index"]), A.ftxt(r)))
             elif A.ident(l) == "imm":
+                # the second word's value, whether the variable is an Option (None = filler) or the word itself
+                if r.get("k") == "Call" and A.path_segs(r["func"]) == ["Some"] and len(r["args"]) == 1:
+                    facts["wrapped"] = facts.get("wrapped", 0) + 1
+                    r = A.strip(r["args"][0])
+                else:
+                    facts["plain"] = facts.get("plain", 0) + 1
                 facts["imm"].append(A.ftxt(r))
             elif A.ident(l) == "mem_count":
                 facts["mem"].append(A.ftxt(r))
@@ -98,6 +117,7 @@ def r2_packing(rule, root=None):
     seen = set()
     MAX = "u8::MAX"
     store_n = store_closure(fn)[0]
+    forms = set()
     for variant, subs, arm in O.arms_by_variant(ms[0], "RegOp"):
         if variant is None:
             rule.bad("wildcard", "catch-all arm in Bytecode::new", A.where(fn, arm))
@@ -111,7 +131,7 @@ def r2_packing(rule, root=None):
         f = _arm_facts(arm, names, store_n)
         kind = O.variant_kind(variant)
         base, form = T.split_variant(variant)
-        bits = lambda n: "Some(%s.to_bits())" % n
+        bits = lambda n: "%s.to_bits()" % n
         if kind in ("unary", "CopyReg"):
             want = dict(stores=[(1, names[0]), (2, names[1])], marks=[], imm=[], mem=[])
         elif kind == "binary" and form == "RegReg":
@@ -123,12 +143,12 @@ def r2_packing(rule, root=None):
         elif kind == "CopyImm":
             want = dict(stores=[(1, names[0])], marks=[(2, MAX)], imm=[bits(names[1])], mem=[])
         elif kind in ("Input", "Output"):
-            want = dict(stores=[(1, names[0])], marks=[], imm=["Some(%s)" % names[1]], mem=[])
+            want = dict(stores=[(1, names[0])], marks=[], imm=["%s" % names[1]], mem=[])
         elif kind == "Load":
-            want = dict(stores=[(1, names[0])], marks=[(2, MAX)], imm=["Some((%s-mem_offset))" % names[1]],
+            want = dict(stores=[(1, names[0])], marks=[(2, MAX)], imm=["(%s-mem_offset)" % names[1]],
                         mem=["mem_count.max(((%s+1)-mem_offset))" % names[1]])
         elif kind == "Store":
-            want = dict(stores=[(2, names[0])], marks=[(1, MAX)], imm=["Some((%s-mem_offset))" % names[1]],
+            want = dict(stores=[(2, names[0])], marks=[(1, MAX)], imm=["(%s-mem_offset)" % names[1]],
                         mem=["mem_count.max(((%s+1)-mem_offset))" % names[1]])
         else:
             rule.bad(variant, "no packing expectation for %s" % variant, A.where(fn, arm))
@@ -141,6 +161,10 @@ def r2_packing(rule, root=None):
                 probs.append("%s are %s, the documented layout of a %s op needs %s" % (k, got, form or kind, w))
         if f["other"]:
             probs.append("unrecognised statements %s" % f["other"][:2])
+        if f.get("wrapped"):
+            forms.add("Some")
+        if f.get("plain"):
+            forms.add("plain")
         if probs:
             for p in probs:
                 rule.bad("%s|%s" % (variant, p[:30]), "RegOp::%s: %s" % (variant, p), A.where(fn, arm))
@@ -149,6 +173,42 @@ def r2_packing(rule, root=None):
     for v in payloads:
         if v not in seen:
             rule.bad("%s|missing" % v, "Bytecode::new has no arm for RegOp::%s" % v, A.where(fn, ms[0]))
+    # the immediate variable is used one way throughout: Option (unset = filler at the push) or the word itself
+    # (initialised to the filler)
+    init = None
+    for s_ in A.find(fn["body"], "Let"):
+        if A.binding_name(s_["pat"]) == "imm" and s_.get("init") is not None:
+            init = A.strip(s_["init"])
+    pushes = [str(A.ftxt(c["args"][0])) for c in A.find(fn["body"], "MethodCall") if c["method"] == "push" and A.ident(A.strip(c["recv"])) == "data" and len(c["args"]) == 1]
+    push_imm = [p for p in pushes if p.startswith("imm")]
+    filler = None
+    if forms == {"Some"} and init is not None and A.ident(init) == "None" and len(push_imm) == 1:
+        m_ = re.fullmatch(r"imm\.unwrap_or\((\w+)\)", push_imm[0])
+        filler = m_.group(1) if m_ else None
+    elif forms == {"plain"} and init is not None and init.get("k") == "Lit" and push_imm == ["imm"]:
+        filler = init.get("s")
+    fv = None
+    try:
+        fv = int(re.sub(r"(u32|_)", "", filler or ""), 0)
+    except ValueError:
+        pass
+    if fv == 0xFF000000:
+        rule.ok("the second word is the arm's immediate, else the filler 0xFF000000", file=BC, line=fn["ln"])
+    else:
+        rule.bad("imm|filler", "an op without an immediate must carry the filler word 0xFF000000, and `imm` must be used one way throughout (assignments %s, initialiser `%s`, pushed as %s)" % (sorted(forms), A.unparse(init) if init else None, push_imm), A.where(fn))
+
+
+def _reserved_rejected(cl, r, pi):
+    """the closure yields Err(ReservedRegister) exactly when the repacked register is 0xFF and writes the
+    byte only otherwise (if / else or early return)"""
+    errs = [(v, c) for v, c in A.result_cases(cl["body"]) if str(A.ftxt(v)) == "Err(ReservedRegister)"]
+    if len(errs) != 1 or [A.norm_cond(x) for x in errs[0][1]] not in (["%s==u8::MAX" % r], ["u8::MAX==%s" % r]):
+        return False
+    writes = [a for a in A.find(cl["body"], "Assign") if str(A.ftxt(a["left"])) == "word[%s]" % pi]
+    if len(writes) != 1:
+        return False
+    conj = A.path_conjuncts(cl["body"], writes[0]) or set()
+    return any(c in conj for c in ("(%s!=u8::MAX)" % r, "(u8::MAX!=%s)" % r))
 
 
 def r3_store_reg(rule, root=None):
@@ -161,7 +221,7 @@ def r3_store_reg(rule, root=None):
     m = t.fmatch("let$R=%s[&%s];" % (mapn, pr))
     need = {
         "repacked through the frequency map": m is not None,
-        "reserved register rejected": m is not None and t.fmatch("if($R==u8::MAX){Err(ReservedRegister)}", bind=m) is not None,
+        "reserved register rejected": m is not None and _reserved_rejected(cl, m["$R"], pi),
         "reg_count covers the register": m is not None and t.fmatch("reg_count=reg_count.max(($R+1))", bind=m) is not None,
         "byte written at the requested index": m is not None and t.fmatch("word[%s]=$R" % pi, bind=m) is not None,
     }
@@ -252,7 +312,7 @@ def r4_framing(rule, root=None):
         rule.ok("framing: first word little-endian", file=BC, line=fn["ln"])
     else:
         rule.bad("framing|first word little-endian", "each op must append `u32::from_le_bytes(word)` first (appends: %s)" % appended, A.where(fn))
-    if len(appended) == 2 and appended[1].startswith("imm.unwrap_or("):
+    if len(appended) == 2 and (appended[1].startswith("imm.unwrap_or(") or appended[1] == "imm"):
         rule.ok("framing: second word is the immediate", file=BC, line=fn["ln"])
     else:
         rule.bad("framing|second word is the immediate", "each op must append the immediate (or its filler) second (appends: %s)" % appended, A.where(fn))
